@@ -80,8 +80,11 @@ func c10Gen(tier string, seed int64) []fw.Case {
 	for rep := 0; rep < reps; rep++ {
 		for _, role := range bothRoles {
 			for pi, p := range []wire.Params{{}, {Deflate: true}} {
-				for _, b := range []string{"read", "reader-read", "write", "writer-write", "writer-close", "ping"} {
-					for _, pre := range []string{"none", "ping-interleaved", "concurrent-write-completed", "concurrent-read-completed", "earlier-op-cancelled"} {
+				for _, b := range []string{"read", "reader-read", "write", "writer-write", "writer-close", "ping", "read-partial-frame", "reader-read-partial-frame", "read-partial-header"} {
+					for _, pre := range []string{"none", "ping-interleaved", "concurrent-write-completed", "concurrent-read-completed", "earlier-op-cancelled", "ping-queued-behind"} {
+						if pre == "ping-queued-behind" && b != "write" && b != "writer-write" && b != "writer-close" {
+							continue
+						}
 						for hi, how := range []string{"cancel", "deadline"} {
 							if tier == "quick" && (pi+hi+len(b)+len(pre))%2 == 1 {
 								continue
@@ -422,6 +425,26 @@ func c10Blocked(r *fw.R, d c10Desc) {
 				}
 			}
 		}()
+	case "read-partial-frame", "reader-read-partial-frame", "read-partial-header":
+		// header and the first payload bytes arrive in ONE transport read, the rest never does
+		f := peer.Mask(wire.Data(wire.OpBinary, true, big[:100])).Bytes()
+		cut := len(f) - 90
+		if d.Blocked == "read-partial-header" {
+			f = peer.Mask(wire.Data(wire.OpBinary, true, big[:300])).Bytes()
+			cut = 3 // inside the extended length / mask key
+		}
+		peer.SendBytes(f[:cut])
+		time.Sleep(2 * time.Millisecond)
+		if d.Blocked == "reader-read-partial-frame" {
+			_, rd, err := c.Reader(ctx)
+			if err != nil {
+				r.Violate("C10/setup-failed", what+": "+err.Error(), "")
+				return
+			}
+			go func() { _, err := io.ReadAll(rd); res <- err }()
+		} else {
+			go func() { _, _, err := c.Read(ctx); res <- err }()
+		}
 	case "write":
 		close(stopReading)
 		<-peerReads
@@ -475,6 +498,16 @@ func c10Blocked(r *fw.R, d c10Desc) {
 	}
 	// ---- concurrent activity that completes while the call is blocked
 	switch d.Pre {
+	case "ping-queued-behind":
+		// other goroutines queue for the frame lock behind the blocked write, with contexts of their own
+		for i := 0; i < 3; i++ {
+			go func() {
+				qctx, qc := context.WithTimeout(base, 20*time.Second)
+				defer qc()
+				c.Ping(qctx)
+			}()
+			time.Sleep(time.Millisecond)
+		}
 	case "concurrent-write-completed":
 		if !blocksOnWrite {
 			octx, oc := context.WithCancel(base)
